@@ -190,6 +190,18 @@ PLUGIN_DEFAULTS = {  # Default(value, settingName) contributed by the plugin: th
     "db": False,                  # falsy new default
     "targetK": 1.0,
     "vpOptSetting": "two",        # default override of the plugin's own setting
+    "neutronicsKernel": "VPK-A",  # built-in setting that starts with an EMPTY enforced option list; options come from plugins
+}
+# enforced option lists = initial options + every contributed Option (module constants; the rule "value must be one of them"
+# is the documented meaning of enforcedOptions, whatever schema object armi builds)
+PLUGIN_OPTIONS = {"vpOptSetting": ["four"], "neutronicsKernel": ["VPK-A", "vpk-b", "VPK-A2"], "vpEmptyOptSetting": ["", "red", "Green", "red2"]}
+ENFORCED_OPTIONS = {
+    "vpOptSetting": ["one", "two", "three", "four"],
+    "neutronicsKernel": ["VPK-A", "vpk-b", "VPK-A2"],
+    "vpEmptyOptSetting": ["", "red", "Green", "red2"],
+    "assemblyRotationAlgorithm": ["", "buReducingAssemblyRotation", "simpleAssemblyRotation"],
+    "boundaries": ["Extrapolated", "Reflective", "Infinite", "ZeroSurfaceFlux", "ZeroInwardCurrent", "Generalized"],
+    "latticePhysicsFrequency": ["never", "BOL", "BOC", "everyNode", "firstCoupledIteration", "all"],
 }
 PLUGIN_SETTINGS = {  # name -> (default as defined, oldNames)
     "vpIntSetting": (5, [("vpIntExpired", LONG_AGO), ("vpIntOld", None), ("vpIntFuture", FAR_FUTURE)]),
@@ -199,6 +211,7 @@ PLUGIN_SETTINGS = {  # name -> (default as defined, oldNames)
     "vpBoolSetting": (False, []),
     "vpDictSetting": ({}, [("vpDictExpired", LONG_AGO), ("vpDictExpired2", LONG_AGO), ("vpDictOld", None)]),
     "vpOptSetting": ("one", [("vpOptOld", None)]),
+    "vpEmptyOptSetting": ("", [("vpEmptyOptOld", None)]),  # options=[] + enforcedOptions=True, completed by Options
 }
 _PLUGIN = []
 
@@ -231,8 +244,8 @@ def _ensure_plugin():
                 mk("vpBoolSetting"),
                 mk("vpDictSetting"),
                 mk("vpOptSetting", options=["one", "two", "three"], enforcedOptions=True),
-                setting.Option("four", "vpOptSetting"),
-            ] + [setting.Default(copy.deepcopy(v), n) for n, v in sorted(PLUGIN_DEFAULTS.items())]
+                mk("vpEmptyOptSetting", options=[], enforcedOptions=True),
+            ] + [setting.Option(o, n) for n in sorted(PLUGIN_OPTIONS) for o in PLUGIN_OPTIONS[n]] + [setting.Default(copy.deepcopy(v), n) for n, v in sorted(PLUGIN_DEFAULTS.items())]
 
     getApp().pluginManager.register(VpC17SettingsPlugin)
     _PLUGIN.append(VpC17SettingsPlugin)
@@ -332,6 +345,8 @@ def catalogue():
             spec = _spec(s.schema)
             if spec["t"] == "unknown":
                 spec = {"t": "bydefault"}
+        if name in ENFORCED_OPTIONS:
+            spec = {"t": "in", "options": list(ENFORCED_OPTIONS[name]), "exactStr": False}
         if name in SIDE_EFFECT_LEVEL:
             spec = {"t": "in", "options": list(LOG_LEVELS), "restricted": True}
         elif name == "moduleVerbosity":
@@ -1422,7 +1437,8 @@ def handwritten_execute(case):
         if key in mapping:
             continue
         mapping[key] = dec(ent["v"], cat[ent["name"]]["default"] if "name" in ent else None)
-        if "name" in ent and cat[ent["name"]]["spec"]["t"] in ("xs", "tight", "cycles") and ent.get("e") in ("valid", "invalid"):
+        if "name" in ent and (cat[ent["name"]]["spec"]["t"] in ("xs", "tight", "cycles") or ent["name"] in ENFORCED_OPTIONS) \
+                and ent.get("e") in ("valid", "invalid"):
             construction[key] = ent["e"]  # nested values are plain JSON: YAML does not change them
         if "old" in ent:
             out.label("entry:old-name")
@@ -1746,6 +1762,12 @@ def copies_execute(case):
                 continue
             value = dec(ch["v"], cat[ch["name"]]["default"])
             ok, exp = _try_schema(ref[ch["name"]], value)
+            if ch.get("e") == "invalid":
+                out.check(not ok, "copies/nearmiss-admitted-by-schema",
+                          lambda: "setting %s: near miss %r violates the documented type/options/range but schema returned %r" % (ch["name"], value, exp))
+            elif ch.get("e") == "valid":
+                out.check(ok, "copies/wellformed-value-rejected-by-schema",
+                          lambda: "setting %s: value %r is well-formed for the documented schema but schema raised %r" % (ch["name"], value, exp))
             new[ch["name"]] = (value, ok, exp)  # a later entry for the same setting replaces the earlier one
         for n in new:
             if not new[n][1]:
